@@ -156,6 +156,39 @@ PROPS = {
                      "the schema judged is the inline JSON form of <T as Schema>::schema() (components inline; $ref resolution into a document is C15's subject)",
                      'one-directional members (skip_serializing / skip_deserializing, direction-specific rename) are admitted either way (counted as ambiguous)',
                      'generated crate is built with opt-level 0 for its own code; ohkami and ohkami_macros come from the shared verif-profile target dir']},
+    "C17": {'level': 'model_checking',
+     'technique': 'explicit enumeration of all (message sequence, producer schedule, writer behaviour) triples for both DataStream constructors; every schedule is '
+                  'executed on the real read -> Router::handle -> Response::send path under the harness executor (counted polls, exact stall detection, '
+                  'environment moves made by the harness) and the bytes are de-chunked and parsed by an independent WHATWG event-stream parser',
+     'engine': 'vmc',
+     'level_text': "Bounded exhaustive exploration of schedule x input space: every sequence of 0..3 (quick) / 0..4 (thorough) messages over {a, '', a\\nb, a\\rb, "
+                   "a\\r\\nb, ' a', 'data: x', a\\revent: y, \\n, ':c', e-acute} (thorough adds a\\n and a\\r), for DataStream::new (queue + producer future) and "
+                   'DataStream::from (hand-written Stream), every assignment of {no yield, self-waking yield, yield woken later by the harness, two yields} to the '
+                   'k+1 gaps before each message and after the last one (which includes bursts of pushes before a yield and completion of the producer with items '
+                   'still queued), three writer behaviours (accepts all / at most 7 bytes per write / Pending once per write). Full product, nothing thinned. '
+                   'states = (sequence, schedule) pairs executed, transitions = polls of the real futures, every trace runs on the implementation. In addition 90 '
+                   'small cases run through the real Session::manage over loopback TCP and must produce byte-identical output (conformance of the harness-driven '
+                   'sequence to the session loop), and one TCP case lets the producer outlast the keep-alive limit.',
+     'level_note': 'Trusted: the harness executor (Pending without a requested wake and without a waiting scripted producer = stall), the independent '
+                   "response/chunked reader (refmodel/http.rs) and the WHATWG event-stream parser (refmodel/sse.rs, self-tested on the standard's four examples). "
+                   'Expected messages = the pushed texts with CRLF and CR rewritten to LF. Besides the final byte stream the check demands that, whenever the '
+                   "producer waits for the outside world, all messages pushed so far are already decodable from the bytes written so far (reading of 'at any "
+                   "pace'). Comments or unknown fields that leave the messages intact, and an explicit `event: message`, would be counted as ambiguous (none "
+                   'occur). Not covered: other texts (NUL, BOM, very long lines), more than 4 messages, a client that disconnects mid-stream, runtimes other than '
+                   'tokio.',
+     'jobs': {'quick': 8, 'thorough': 16},
+     'assumptions': ['features rt_tokio,sse,openapi on x86-64 Linux; other runtimes are not built',
+                     'the harness build uses opt-level 2 with debug-assertions and overflow-checks on (profile `verif`), hooks enabled by --cfg ohkami_verif',
+                     'values outside the stated alphabets / bounds are not covered (DESIGN.md section 9)',
+                     'the request is a fixed `GET /` delivered in one read; the response is written into an in-memory scripted writer (no kernel socket buffer '
+                     'effects)',
+                     "a producer's wait for an outside event is modelled by a future that leaves its waker with the harness; the harness wakes it only when "
+                     "everything else is quiescent (stall), which is the latest possible moment and therefore the most demanding one for 'nothing is withheld'",
+                     '`two yields` = two consecutive self-waking yields',
+                     'the socket part sets OHKAMI_KEEPALIVE_TIMEOUT=1 (default 42) and uses one real sleep of 1.5 s on a single-threaded tokio runtime; the '
+                     'verdict depends only on the order of the two timer deadlines; heavy machine stalls can make this one case miss (never alarm falsely) or turn '
+                     'a conformance comparison into a machinery failure (exit 2)'],
+     'min_outcomes': 8},
     "C18": {
         "level": "model_checking",
         "technique": "stateless depth-first exploration (CHESS style, preemption-bounded, replay-based) of all interleavings of the real accept-loop poll and the real signal handler at hook-provided scheduling points, with a real SIGINT, one fresh process per schedule; plus exhaustive enumeration of session mixes x completion orders",
